@@ -2,7 +2,8 @@
     Statements only. [run_C25 n ops] is the model of the code as it is (n coroutines, history
     [ops]); [ok_maps_C25] / [ok_C25] are the property as an oracle over observed results (map
     clauses / map clauses + release on drop). *)
-From OCV Require Import Base.Prelude Misc.Local Misc.LocalOracle Misc.LocalProofs.
+From OCV Require Import Base.Prelude Misc.Local Misc.LocalOracle Misc.LocalProofs Misc.LocalGhost.
+From Coq Require Import Permutation.
 Open Scope Z_scope.
 
 (** every history agrees with a functional map per coroutine: store returns the previous value,
@@ -35,6 +36,18 @@ Theorem C25_holds_outside : forall n ops,
   wf_C25 n ops = true -> no_defect_C25 n ops = true -> ok_C25 n ops (run_C25 n ops) = true.
 Proof. exact holds_outside. Qed.
 
+(** Ghost level ([st_live]: the boxes allocated and not freed): after any history the boxes still
+    allocated are exactly those of the values still stored plus those that were stored in a
+    coroutine when it was dropped; so outside the defect nothing but stored values is allocated, and
+    store / overwrite / remove never leak. *)
+Theorem C25_live_cells_exact : forall n ops,
+  Permutation (st_live (final_C25 n ops)) (stored (final_C25 n ops) ++ leaked_C25 n ops).
+Proof. exact live_cells_exact. Qed.
+
+Theorem C25_no_leak_outside : forall n ops,
+  no_defect_C25 n ops = true -> Permutation (st_live (final_C25 n ops)) (stored (final_C25 n ops)).
+Proof. exact no_leak_outside. Qed.
+
 Example C25_nonvacuous :
   let ops := [Put 0 7 1 10; Put 1 7 2 20; Put 0 7 3 30; GetMut 0 7 (-4); Get 0 7; Get 1 7;
               Remove 0 7; Get 0 7; DropCo 0; Remove 1 7; DropCo 1] in
@@ -50,3 +63,5 @@ Print Assumptions C25_reads_latest.
 Print Assumptions C25_private.
 Print Assumptions C25_refuted_values_leaked_on_drop.
 Print Assumptions C25_holds_outside.
+Print Assumptions C25_live_cells_exact.
+Print Assumptions C25_no_leak_outside.
